@@ -437,6 +437,8 @@ struct Shape {
     /// Some: exact stdout and exit 0 required; None: any clean outcome (no signal)
     expect: Option<String>,
     debug_too: bool,
+    /// the program has a fault: it must not succeed, and nothing after the fault may run
+    must_fail: bool,
 }
 
 fn shapes(tier: Tier) -> Vec<Shape> {
@@ -456,19 +458,19 @@ fn shapes(tier: Tier) -> Vec<Shape> {
             "let first = array(1, null); let cur = first; let i = 1; while i < {n} do begin let nx = array(1, null); cur[0] <- nx; cur <- nx; i <- i + 1 end; cur[0] <- first; print(\"built\\n\"); print(\"~\\n\", first); print(\"after\\n\")",
             n = n
         );
-        v.push(Shape { name: format!("array-cycle-{}", n), src: s, expect: None, debug_too: n <= 8 || n == 64 || long });
+        v.push(Shape { name: format!("array-cycle-{}", n), src: s, expect: None, debug_too: n <= 8 || n == 64 || long, must_fail: false });
         let s = format!(
             "function mk() -> object begin let next = null; function hop() -> this.next end; let first = mk(); let cur = first; let i = 1; while i < {n} do begin let nx = mk(); cur.next <- nx; cur <- nx; i <- i + 1 end; cur.next <- first; print(\"built\\n\"); print(\"~\\n\", null == first.hop().hop()); print(\"~\\n\", first); print(\"after\\n\")",
             n = n
         );
-        v.push(Shape { name: format!("field-cycle-{}", n), src: s, expect: None, debug_too: n <= 8 || n == 64 || long });
+        v.push(Shape { name: format!("field-cycle-{}", n), src: s, expect: None, debug_too: n <= 8 || n == 64 || long, must_fail: false });
         if long {
             // a cycle behind an acyclic tail of 500 links, entered from one field of a wide object
             let s = format!(
                 "function mk() -> object begin let a = 1; let next = null; let z = array(2, 3) end; let first = mk(); let cur = first; let i = 1; while i < {n} do begin let nx = mk(); cur.next <- nx; cur <- nx; i <- i + 1 end; cur.next <- first; let tail = first; i <- 0; while i < 500 do begin tail <- array(2, tail); i <- i + 1 end; print(\"built\\n\"); print(\"~\\n\", object begin let p = 1; let q = tail; let r = 2 end); print(\"after\\n\")",
                 n = n
             );
-            v.push(Shape { name: format!("tail-then-cycle-{}", n), src: s, expect: None, debug_too: true });
+            v.push(Shape { name: format!("tail-then-cycle-{}", n), src: s, expect: None, debug_too: true, must_fail: false });
         }
         if n <= 64 || long {
             // a cycle that runs through parent links: the leaf's ancestor holds the leaf in a field
@@ -476,7 +478,7 @@ fn shapes(tier: Tier) -> Vec<Shape> {
                 "function mk(p) -> object extends p begin let link = null end; let root = mk(null); let cur = root; let i = 1; while i < {n} do begin cur <- mk(cur); i <- i + 1 end; root.link <- cur; print(\"built\\n\"); print(\"~\\n\", cur); print(\"after\\n\")",
                 n = n
             );
-            v.push(Shape { name: format!("parent-cycle-{}", n), src: s, expect: None, debug_too: n <= 4 || long });
+            v.push(Shape { name: format!("parent-cycle-{}", n), src: s, expect: None, debug_too: n <= 4 || long, must_fail: false });
         }
         if n <= 8 {
             // the back edge sits in an array that is the ancestor at the end of the chain
@@ -484,14 +486,14 @@ fn shapes(tier: Tier) -> Vec<Shape> {
                 "function mk(p) -> object extends p begin end; let arr = array(2, 0); let cur = mk(arr); let i = 1; while i < {n} do begin cur <- mk(cur); i <- i + 1 end; arr[1] <- cur; print(\"built\\n\"); print(\"~\\n\", cur); print(\"after\\n\")",
                 n = n
             );
-            v.push(Shape { name: format!("array-parent-cycle-{}", n), src: s, expect: None, debug_too: true });
+            v.push(Shape { name: format!("array-parent-cycle-{}", n), src: s, expect: None, debug_too: true, must_fail: false });
         }
         if n <= 64 || long {
             let s = format!(
                 "function mk() -> object begin let next = null end; let first = mk(); let cur = first; let i = 1; while i < {n} do begin let nx = mk(); let box = array(2, 7); box[1] <- nx; cur.next <- box; cur <- nx; i <- i + 1 end; cur.next <- array(1, first); print(\"built\\n\"); print(\"~\\n\", first); print(\"after\\n\")",
                 n = n
             );
-            v.push(Shape { name: format!("mixed-cycle-{}", n), src: s, expect: None, debug_too: n <= 4 || long });
+            v.push(Shape { name: format!("mixed-cycle-{}", n), src: s, expect: None, debug_too: n <= 4 || long, must_fail: false });
         }
     }
     v.push(Shape {
@@ -499,20 +501,43 @@ fn shapes(tier: Tier) -> Vec<Shape> {
         src: "let a = object begin let o = null end; let b = object begin let o = a end; a.o <- b; print(\"~ ~\\n\", a, b)".into(),
         expect: None,
         debug_too: true,
+        must_fail: false,
     });
-    v.push(Shape { name: "self-loop-array".into(), src: "let a = array(3, 0); a[1] <- a; print(\"~\\n\", a)".into(), expect: None, debug_too: true });
+    v.push(Shape { name: "self-loop-array".into(), src: "let a = array(3, 0); a[1] <- a; print(\"~\\n\", a)".into(), expect: None, debug_too: true, must_fail: false });
     v.push(Shape {
         name: "cycle-not-printed-is-harmless".into(),
         src: "let a = array(1, null); a[0] <- a; print(\"~\\n\", null == a[0][0][0]); print(\"ok\\n\")".into(),
         expect: Some("false\nok\n".into()),
         debug_too: true,
+        must_fail: false,
     });
     v.push(Shape {
         name: "shared-substructure-is-not-a-cycle".into(),
         src: "let s = array(1, 5); let o = object begin let x = s; let y = s end; let a = array(2, s); print(\"~ ~\\n\", o, a)".into(),
         expect: Some("object(x=[5], y=[5]) [[5], [5]]\n".into()),
         debug_too: true,
+        must_fail: false,
     });
+    // arity faults that are off by exactly the width of the arity byte (and twice that): a count
+    // that is stored narrower than it is checked turns these into calls that pass the check
+    for extra in [256usize, 512] {
+        let args = |n: usize| (0..n).map(|i| (i % 7).to_string()).collect::<Vec<_>>().join(", ");
+        let progs: Vec<(&str, String)> = vec![
+            ("function-0-params", format!("function f() -> 1; print(\"before\\n\"); f({}); print(\"after\\n\")", args(extra))),
+            ("function-1-param", format!("function f(x) -> x; print(\"before\\n\"); f({}); print(\"after\\n\")", args(extra + 1))),
+            ("print-0-placeholders", format!("print(\"before\\n\"); print(\"none\\n\", {}); print(\"after\\n\")", args(extra))),
+            ("print-1-placeholder", format!("print(\"before\\n\"); print(\"~\\n\", {}); print(\"after\\n\")", args(extra + 1))),
+            ("method-0-params", format!("let o = object begin function m() -> 1 end; print(\"before\\n\"); o.m({}); print(\"after\\n\")", args(extra))),
+            ("method-1-param", format!("let o = object begin function m(x) -> x end; print(\"before\\n\"); o.m({}); print(\"after\\n\")", args(extra + 1))),
+            ("builtin-add", format!("let i = 1; print(\"before\\n\"); i.add({}); print(\"after\\n\")", args(extra + 1))),
+            ("array-get", format!("let a = array(3, 0); print(\"before\\n\"); a.get({}); print(\"after\\n\")", args(extra + 1))),
+            ("array-set", format!("let a = array(3, 0); print(\"before\\n\"); a.set({}); print(\"after\\n\")", args(extra + 2))),
+            ("null-eq", format!("print(\"before\\n\"); null.eq({}); print(\"after\\n\")", args(extra + 1))),
+        ];
+        for (name, src) in progs {
+            v.push(Shape { name: format!("arity-off-by-{}-{}", extra, name), src, expect: None, debug_too: true, must_fail: true });
+        }
+    }
     // acyclic chains through array elements, fields and parent links
     for n in [10usize, 100, 1000] {
         let mut open = String::new();
@@ -525,6 +550,7 @@ fn shapes(tier: Tier) -> Vec<Shape> {
             src: format!("let cur = 0; let i = 0; while i < {n} do begin cur <- array(1, cur); i <- i + 1 end; print(\"~\\n\", cur)", n = n),
             expect: Some(format!("{}0{}\n", open, close)),
             debug_too: true,
+            must_fail: false,
         });
         let mut exp = String::from("0");
         for _ in 0..n {
@@ -535,6 +561,7 @@ fn shapes(tier: Tier) -> Vec<Shape> {
             src: format!("function mk(v) -> object begin let f = v end; let cur = 0; let i = 0; while i < {n} do begin cur <- mk(cur); i <- i + 1 end; print(\"~\\n\", cur)", n = n),
             expect: Some(format!("{}\n", exp)),
             debug_too: true,
+            must_fail: false,
         });
         let mut exp = String::from("object()");
         for _ in 0..n {
@@ -548,6 +575,7 @@ fn shapes(tier: Tier) -> Vec<Shape> {
             ),
             expect: Some(format!("42\n{}\n", exp)),
             debug_too: true,
+            must_fail: false,
         });
     }
     // FML call depth
@@ -557,55 +585,63 @@ fn shapes(tier: Tier) -> Vec<Shape> {
             src: format!("function r(n) -> if n == 0 then 0 else 1 + r(n - 1); print(\"~\\n\", r({}))", n),
             expect: Some(format!("{}\n", n)),
             debug_too: true,
+            must_fail: false,
         });
         v.push(Shape {
             name: format!("method-recursion-depth-{}", n),
             src: format!("let o = object begin function r(n) -> if n == 0 then 0 else 1 + this.r(n - 1) end; print(\"~\\n\", o.r({}))", n),
             expect: Some(format!("{}\n", n)),
             debug_too: true,
+            must_fail: false,
         });
     }
     // source nesting depth of each nestable construct
     for n in [50usize, 100, 150, 200] {
         let debug_ok = n <= 150;
         let rep = |a: &str, mid: &str, b: &str| -> String { format!("{}{}{}", a.repeat(n), mid, b.repeat(n)) };
-        v.push(Shape { name: format!("nest-parens-{}", n), src: format!("print(\"~\\n\", {})", rep("(", "1", ")")), expect: Some("1\n".into()), debug_too: debug_ok });
-        v.push(Shape { name: format!("nest-blocks-{}", n), src: format!("print(\"~\\n\", {})", rep("begin ", "1", " end")), expect: Some("1\n".into()), debug_too: debug_ok });
+        v.push(Shape { name: format!("nest-parens-{}", n), src: format!("print(\"~\\n\", {})", rep("(", "1", ")")), expect: Some("1\n".into()), debug_too: debug_ok, must_fail: false });
+        v.push(Shape { name: format!("nest-blocks-{}", n), src: format!("print(\"~\\n\", {})", rep("begin ", "1", " end")), expect: Some("1\n".into()), debug_too: debug_ok, must_fail: false });
         v.push(Shape {
             name: format!("nest-operators-{}", n),
             src: format!("print(\"~\\n\", {})", rep("(1 + ", "0", ")")),
             expect: Some(format!("{}\n", n)),
             debug_too: debug_ok,
+            must_fail: false,
         });
         v.push(Shape {
             name: format!("nest-calls-{}", n),
             src: format!("function id(x) -> x; print(\"~\\n\", {})", rep("id(", "7", ")")),
             expect: Some("7\n".into()),
             debug_too: debug_ok,
+            must_fail: false,
         });
         v.push(Shape {
             name: format!("nest-arrays-{}", n),
             src: format!("let a = {}; print(\"ok\\n\")", rep("array(1, ", "0", ")")),
             expect: Some("ok\n".into()),
             debug_too: debug_ok,
+            must_fail: false,
         });
         v.push(Shape {
             name: format!("nest-conditionals-{}", n),
             src: format!("print(\"~\\n\", {})", rep("if true then ", "3", " else 4")),
             expect: Some("3\n".into()),
             debug_too: debug_ok,
+            must_fail: false,
         });
         v.push(Shape {
             name: format!("nest-loops-{}", n),
             src: format!("{}print(\"never\\n\"); print(\"ok\\n\")", "while false do ".repeat(n)),
             expect: Some("ok\n".into()),
             debug_too: debug_ok,
+            must_fail: false,
         });
         v.push(Shape {
             name: format!("nest-objects-{}", n),
             src: format!("let o = {}; print(\"ok\\n\")", rep("object extends ", "null", " begin end")),
             expect: Some("ok\n".into()),
             debug_too: debug_ok,
+            must_fail: false,
         });
     }
     v
@@ -618,7 +654,7 @@ fn judge_shape(s: &Shape, run: &mut Runner, ctx: &mut Ctx) -> Vec<Violation> {
             continue;
         }
         ctx.eval();
-        ctx.label(if s.expect.is_some() { "shape:acyclic-or-deep" } else { "shape:cyclic" });
+        ctx.label(if s.must_fail { "shape:fault-at-width" } else if s.expect.is_some() { "shape:acyclic-or-deep" } else { "shape:cyclic" });
         let o = match run.run_source(s.src.as_bytes(), debug) {
             Ok(o) => o,
             Err(e) => {
@@ -654,6 +690,19 @@ fn judge_shape(s: &Shape, run: &mut Runner, ctx: &mut Ctx) -> Vec<Violation> {
                     )
                     .with("what", "heap-shape"),
                 )
+            }
+        } else if s.must_fail {
+            // refused before running or stopped at the fault: either way no success, nothing after
+            // the fault, a diagnostic
+            let so = o.out_str();
+            if o.status.success() || !(so.is_empty() || so == "before\n") || o.stderr.is_empty() {
+                Some(
+                    Violation::new("fault-not-caught", format!("shape {} ({}): status {:?}, stdout {:?}, stderr {:?}", s.name, bin, o.status, so.chars().take(200).collect::<String>(), o.err_str().chars().take(200).collect::<String>()), case)
+                        .with("what", "fault-at-width"),
+                )
+            } else {
+                ctx.label("fault-at-width:clean-failure");
+                None
             }
         } else {
             // cyclic: any clean outcome; if it fails, nothing after the fault may have run
@@ -825,7 +874,7 @@ impl Property for C10 {
             let src = case["source"].as_str().unwrap_or("").to_string();
             // re-derive the expectation from the catalogue when the shape is a listed one
             let found = shapes(Tier::Thorough).into_iter().find(|s| s.name == name);
-            let s = found.unwrap_or(Shape { name: name.to_string(), src, expect: None, debug_too: true });
+            let s = found.unwrap_or(Shape { name: name.to_string(), src, expect: None, debug_too: true, must_fail: false });
             let vs = judge_shape(&s, &mut run, ctx);
             return match vs.into_iter().next() {
                 Some(v) => Err(v),
